@@ -4,6 +4,7 @@ package props
 
 import (
 	"bytes"
+	"encoding/binary"
 	"encoding/json"
 	"fmt"
 	"hash/fnv"
@@ -91,6 +92,7 @@ type c11Shared struct {
 	// objects shared by all goroutines of a trial (target shared-objects)
 	sharedMD   []*meta.Data
 	sharedProf []*icc.Profile
+	premul     *image.RGBA
 }
 
 func newC11Shared() *c11Shared {
@@ -128,11 +130,28 @@ func newC11Shared() *c11Shared {
 	sh.profiles = [][]byte{structuredProfile(rng, 0), structuredProfile(rng, 4)}
 	for k := 0; k < 80; k++ {
 		prof := structuredProfile(rng, k%5)
+		if k%4 == 3 {
+			// an mluc description whose records have odd byte lengths (declared length 2n+1)
+			recs := []imggen.MlucRecord{{Lang: "en", Country: "US", Text: c17Text(rng, "ascii", 7+k%5)}, {Lang: "de", Country: "DE", Text: c17Text(rng, "ascii", 4)}}
+			tag, fields := imggen.Mluc(recs, nil, 3, 12)
+			for _, f := range fields {
+				if f.Name == "mluc.rec0.length" { // the first record only: the byte after its string is inside the tag
+					binary.BigEndian.PutUint32(tag[f.Off:], binary.BigEndian.Uint32(tag[f.Off:])+1)
+				}
+			}
+			prof, _ = imggen.ICCSpec{Header: imggen.MinimalHeader(true), Tags: []imggen.ICCTag{{Sig: "desc", Data: tag}, {Sig: "cprt", Data: rng.Bytes(24)}}}.Build()
+		}
 		pb, _ := imggen.PNGSpec{W: uint32(3 + k), H: 2, Depth: 8, ColorType: 2, ICC: &imggen.PNGICC{Name: "s", Profile: prof, Level: 6}, IDAT: []byte{1}}.Build()
 		res := loadWith("autometa", bytes.NewReader(pb))
 		sh.sharedMD = append(sh.sharedMD, res.MD)
 		p, _, _ := readProfile(bytes.NewReader(prof))
 		sh.sharedProf = append(sh.sharedProf, p)
+	}
+	// a premultiplied image holding every alpha byte with several channel values (partial alphas included)
+	sh.premul = image.NewRGBA(image.Rect(0, 0, 64, 16))
+	for i := 0; i < 64*16; i++ {
+		a := uint8(i * 7)
+		sh.premul.Pix[4*i], sh.premul.Pix[4*i+1], sh.premul.Pix[4*i+2], sh.premul.Pix[4*i+3] = uint8(int(a)*(i%5)/4), a/2, a, a
 	}
 	sh.srcImg = image.NewNRGBA(image.Rect(0, 0, 19, 13))
 	rng.Fill(sh.srcImg.Pix)
@@ -301,6 +320,28 @@ func c11Step(target string, g, it int, sh *c11Shared) uint64 {
 		h = mix(h, hashImage(prism.ConvertImageToNRGBA(sh.ycc, par)))
 		h = mix(h, hashImage(prism.ConvertImageToRGBA64(sh.ycc, par)))
 		h = mix(h, hashImage(prism.ConvertImageToRGBA(prism.ConvertImageToRGBA64(sh.srcImg, 1), par)))
+	case target == "convert-premul":
+		// every alpha byte through the un-premultiplying helpers, from the first call on
+		if it%20 != 0 {
+			return 0
+		}
+		par := 1 + (g+it/20)%4
+		rows := 1 + (g+it/20)%16
+		sub := sh.premul.SubImage(image.Rect(0, (g+it/20)%(17-rows), 64, (g+it/20)%(17-rows)+rows))
+		h = mix(h, hashImage(prism.ConvertImageToNRGBA(sub, par)))
+		h = mix(h, hashImage(prism.ConvertImageToRGBA64(sub, par)))
+	case target == "generate":
+		// matrices for different primaries and whites requested at the same moment
+		k := (g*7 + it) % len(c20Pub)
+		pr := c20Pub[k]
+		m := ciexyz.TransformToXYZForXYYPrimaries(pr[0], pr[1], pr[2], pr[3])
+		mi := ciexyz.TransformFromXYZForXYYPrimaries(pr[0], pr[1], pr[2], pr[3])
+		for c := 0; c < 3; c++ {
+			for rw := 0; rw < 3; rw++ {
+				h = mix(h, math.Float64bits(m[c][rw]))
+				h = mix(h, math.Float64bits(mi[c][rw]))
+			}
+		}
 	case target == "adapt":
 		a := ciexyy.Color{X: 0.3 + float32((g+it)%40)/400, Y: 0.31 + float32(it%30)/500, YY: 1}
 		ca := ciexyz.AdaptBetweenXYYWhitePoints(a, ciexyy.D50)
@@ -347,12 +388,26 @@ func c11Step(target string, g, it int, sh *c11Shared) uint64 {
 	return h
 }
 
+// c20Pub: primaries + white of a few spaces for the "generate" target (xyY, YY = 1)
+var c20Pub = func() [][4]ciexyy.Color {
+	xy := func(x, y float32) ciexyy.Color { return ciexyy.Color{X: x, Y: y, YY: 1} }
+	return [][4]ciexyy.Color{
+		{xy(0.64, 0.33), xy(0.30, 0.60), xy(0.15, 0.06), xy(0.31271, 0.32902)},
+		{xy(0.64, 0.33), xy(0.21, 0.71), xy(0.15, 0.06), xy(0.31271, 0.32902)},
+		{xy(0.734699, 0.265301), xy(0.159597, 0.840403), xy(0.036598, 0.000105), xy(0.34567, 0.3585)},
+		{xy(0.68, 0.32), xy(0.265, 0.69), xy(0.15, 0.06), xy(0.31271, 0.32902)},
+		{xy(0.708, 0.292), xy(0.17, 0.797), xy(0.131, 0.046), xy(0.31271, 0.32902)},
+		{xy(0.64, 0.33), xy(0.30, 0.60), xy(0.15, 0.06), xy(0.34567, 0.3585)},
+		{xy(0.63, 0.34), xy(0.31, 0.595), xy(0.155, 0.07), xy(0.3101, 0.3162)},
+	}
+}()
+
 func float32bits(f float32) uint32 {
 	return math.Float32bits(f)
 }
 
 var c11Targets = []string{"srgb.from16", "srgb.to16", "srgb.both", "adobergb.from16", "adobergb.to16", "adobergb.both", "prophotorgb.from16", "prophotorgb.to16", "prophotorgb.both",
-	"displayp3", "colors", "tables8", "images", "images-inplace", "images-rgba64", "images-wide", "shared-objects", "hash-transform", "convert", "adapt", "loaders", "icc", "mixed"}
+	"displayp3", "colors", "tables8", "images", "images-inplace", "images-rgba64", "images-wide", "shared-objects", "convert-premul", "generate", "hash-transform", "convert", "adapt", "loaders", "icc", "mixed"}
 
 func c11Lazy(t string) bool {
 	return strings.Contains(t, ".from16") || strings.Contains(t, ".to16") || strings.Contains(t, ".both") || t == "displayp3" || t == "colors" || t == "mixed"
